@@ -207,6 +207,25 @@ def readPair (fmt : VolFmt) (useMmap : Bool) (hs is : Src) : Except Err Bytes :=
   | .error e => .error e
   | .ok (n, off) => readData useMmap is off n
 
+/-- `fileslice.read_segments` with a single segment (`fileslice.py:662-671`): seek, read, and
+    "Whoops, not enough data in file" unless exactly `n` bytes came back -/
+def segRead (s : Src) (off n : Nat) : Except Err Bytes :=
+  match s.read off n with
+  | .error e => .error e
+  | .ok b => if b.length ≠ n then .error .trunc else .ok b
+
+/-- a partial read through the array proxy (`img.dataobj[..., -1]` of the Fortran-ordered data: the
+    bytes from `a` to the end of the data, one contiguous segment) -/
+def readTailSingle (fmt : VolFmt) (s : Src) (a : Nat) : Except Err Bytes :=
+  match readHeader fmt true s with
+  | .error e => .error e
+  | .ok (n, off) => segRead s (off + a) (n - a)
+
+def readTailPair (fmt : VolFmt) (hs is : Src) (a : Nat) : Except Err Bytes :=
+  match readHeader fmt false hs with
+  | .error e => .error e
+  | .ok (n, off) => segRead is (off + a) (n - a)
+
 /-- `loadsave.load` (`loadsave.py:100-106`): a file of size 0 on disk is refused before any reader runs -/
 def load {α : Type} (diskLen : Nat) (r : Except Err α) : Except Err α :=
   if diskLen = 0 then .error .bad else r
